@@ -142,3 +142,93 @@ path_h!(c01_l2_auth_path_rule_h10, LmsAlgorithm::LmsH10, 10);
 path_h!(c01_l2_auth_path_rule_h15, LmsAlgorithm::LmsH15, 15);
 path_h!(c01_l2_auth_path_rule_h20, LmsAlgorithm::LmsH20, 20);
 path_h!(c01_l2_auth_path_rule_h25, LmsAlgorithm::LmsH25, 25);
+
+// ---- L2: the verifier's Merkle walk equals an independent RFC 8554 Algorithm 6a computation ---------
+// Deterministic toy hash family (symbolic salt); the LM-OTS candidate is a contract returning a
+// symbolic value Kc, so only the LMS layer (leaf / interior node hashing, node numbering, left/right
+// order by parity) is under test - for every leaf index and every path.
+pub static mut KC: [u8; 32] = [0u8; 32];
+pub fn model_ots_candidate<H: HashChain>(
+    _signature: &InMemoryLmotsSignature<'_, H>,
+    _lms_tree_identifier: &[u8],
+    _lms_leaf_identifier: u32,
+    _message: &[u8],
+) -> ArrayVec<[u8; 32]> {
+    ArrayVec::from_array_len(unsafe { KC }, H::OUTPUT_SIZE as usize)
+}
+
+fn verify_walk(hgt: LmsAlgorithm, h: u32, hcode: u32, q: u32) {
+    use hbs_lms::verif_hooks::lms_definitions::InMemoryLmsPublicKey;
+    type H = Toy16;
+    const N: usize = 16;
+    salt_symbolic();
+    unsafe { KC = kani::any(); }
+    let kc = unsafe { KC };
+    // the leaf index is concrete per instance: with a symbolic index the library selects the left / right
+    // operand through a symbolic slice pointer and CBMC's propositional encoding exceeded 65 GB
+    let i: [u8; 16] = kani::any();
+    let path: [u8; N * 5] = kani::any();
+    let c: [u8; N] = kani::any();
+    let y: [u8; N * 18] = kani::any();
+    let sig = InMemoryLmsSignature::<H> {
+        lms_leaf_identifier: q,
+        lmots_signature: InMemoryLmotsSignature { signature_randomizer: &c, signature_data: &y, lmots_parameter: LmotsAlgorithm::LmotsW8.construct_parameter::<H>().unwrap() },
+        authentication_path: &path[..N * h as usize],
+        lms_parameter: hgt.construct_parameter::<H>().unwrap(),
+    };
+    // reference root (RFC 8554 Algorithm 6a, steps 3-4)
+    let mut node = (1u32 << h) + q;
+    let mut tmp = toy_digest(&[&i, &node.to_be_bytes(), &[0x82, 0x82], &kc[..N]]);
+    let mut k = 0usize;
+    while k < h as usize {
+        let sib = &path[k * N..(k + 1) * N];
+        let parent = node / 2;
+        tmp = if node % 2 == 1 {
+            toy_digest(&[&i, &parent.to_be_bytes(), &[0x83, 0x83], sib, &tmp[..N]])
+        } else {
+            toy_digest(&[&i, &parent.to_be_bytes(), &[0x83, 0x83], &tmp[..N], sib])
+        };
+        node = parent;
+        k += 1;
+    }
+    // public key carrying exactly that root, and one with a single flipped bit
+    let mut pkb = [0u8; 24 + N];
+    pkb[..4].copy_from_slice(&hcode.to_be_bytes());
+    pkb[4..8].copy_from_slice(&4u32.to_be_bytes());
+    pkb[8..24].copy_from_slice(&i);
+    pkb[24..].copy_from_slice(&tmp[..N]);
+    let msg: [u8; 2] = kani::any();
+    {
+        let pk = InMemoryLmsPublicKey::<H>::new(&pkb).unwrap();
+        assert!(hbs_lms::verif_hooks::lms_verify::verify(&sig, &pk, &msg).is_ok(), "the verifier's walk reaches the RFC root: leaf = H(I|u32(2^h+q)|0x8282|Kc), parents = H(I|u32(node/2)|0x8383|left|right) by parity");
+    }
+    let bit: usize = kani::any();
+    kani::assume(bit < 8 * N);
+    pkb[24 + bit / 8] ^= 1 << (bit % 8);
+    let pk2 = InMemoryLmsPublicKey::<H>::new(&pkb).unwrap();
+    assert!(hbs_lms::verif_hooks::lms_verify::verify(&sig, &pk2, &msg).is_err(), "any other root is rejected");
+    kani::cover!(true, "reached");
+}
+#[cfg(kani)]
+macro_rules! walk_h {
+    ($name:ident, $alg:expr, $h:expr, $code:expr, $q:expr) => {
+        #[kani::proof]
+        #[kani::unwind(18)]
+        #[kani::stub(zeroize::optimization_barrier, crate::models::noop_barrier)]
+        #[kani::stub(<[u8; 32] as tinyvec::Array>::default, crate::models::fast_default)]
+        #[kani::stub(hbs_lms::verif_hooks::lmots_verify::generate_public_key_candidate, model_ots_candidate)]
+        pub fn $name() { verify_walk($alg, $h, $code, $q) }
+    };
+}
+#[cfg(not(kani))]
+macro_rules! walk_h {
+    ($name:ident, $alg:expr, $h:expr, $code:expr, $q:expr) => {
+        pub fn $name() { verify_walk($alg, $h, $code, $q) }
+    };
+}
+walk_h!(c01_l2_verify_walk_h5_q0, LmsAlgorithm::LmsH5, 5, 5, 0);
+walk_h!(c01_l2_verify_walk_h5_q31, LmsAlgorithm::LmsH5, 5, 5, 31);
+walk_h!(c01_l2_verify_walk_h5_q21, LmsAlgorithm::LmsH5, 5, 5, 21);
+walk_h!(c01_l2_verify_walk_h5_q10, LmsAlgorithm::LmsH5, 5, 5, 10);
+walk_h!(c01_l2_verify_walk_h2_q1, LmsAlgorithm::LmsH2, 2, 1, 1);
+walk_h!(c01_l2_verify_walk_h2_q2, LmsAlgorithm::LmsH2, 2, 1, 2);
